@@ -100,6 +100,12 @@ func executeCompaction(db *DB) (compactionMetadata *proto.CompactionMetadata, er
 	}()
 
 	var readers []sstables.SSTableReaderI
+	defer func() {
+		for _, reader := range readers {
+			err = errors.Join(err, reader.Close())
+		}
+	}()
+
 	var iterators []sstables.SSTableMergeIteratorContext
 	for i := 0; i < len(paths); i++ {
 		reader, err := sstables.NewSSTableReader(
@@ -110,20 +116,14 @@ func executeCompaction(db *DB) (compactionMetadata *proto.CompactionMetadata, er
 			return nil, err
 		}
 
+		readers = append(readers, reader)
 		scanner, err := reader.Scan()
 		if err != nil {
 			return nil, err
 		}
 
-		readers = append(readers, reader)
 		iterators = append(iterators, sstables.NewMergeIteratorContext(i, scanner))
 	}
-
-	defer func() {
-		for _, reader := range readers {
-			err = errors.Join(err, reader.Close())
-		}
-	}()
 
 	// tombstones can only be dropped when no older table is left that may still hold a value for the deleted key
 	reduceFunc := sstables.ScanReduceLatestWinsSkipTombstones
